@@ -21,8 +21,8 @@ def run():
     ck.cov["exhaustive"] = True
     ck.cov["rule"] = (f"all bodies of 1..{n_func} statements over {evalfam.C15_KINDS} (each followed by a final value), called as function; bodies of "
                       f"1..{n_all} statements also as method, literal call, under try, and inside a function with its own defer; nested callees gok/gbad "
-                      "have their own defers; non-trivial = accepted runs whose body contains a defer")
-    ck.assumptions = ["a function whose last evaluated statement is a bare `defer` returns the internal defer object (rendered <DeferType>): modelled as is"]
+                      "have their own defers; the same bodies bare (exactly these statements: one-statement bodies, bodies ending in a defer) as function, as a statement call inside another function, and as literal call; non-trivial = accepted runs whose body contains a defer")
+    ck.assumptions = ["a defer statement has no value: a body that ends with one evaluates to nil (fix 0b66096; before it the internal defer object leaked)"]
     if st["ok"] + st["mismatch"] < len(fam) * 0.95:
         raise pvlib.Broken(f"too many programs unsupported/discarded: {st}")
     return ck.finish()
